@@ -274,6 +274,21 @@ func runC07(c *Ctx) {
 				c.Direct(served == wantServed, fmt.Sprintf("crafted inner request: served=%v, expected %v (only the registered origin may be served)", served, wantServed), in)
 			}
 		}
+		// requests that reach the later stages of Evaluate in an unusual state: correctly sealed for a registered origin
+		// (anyone can seal to the public name key, with any request-key bytes in the associated data) but with a
+		// request key that is not a point, or with signature halves on the boundaries of the scalar range
+		{
+			cl := newT3Client(r)
+			cr := c07Crafted(e, cl, r, names[0])
+			var ks []string
+			for k := range cr {
+				ks = append(ks, k)
+			}
+			sort.Strings(ks)
+			for _, k := range ks {
+				eval(k, cr[k], nil, nil)
+			}
+		}
 		// garbage
 		for i := 0; i < c.Pick(20, 300); i++ {
 			eval("random", r.Bytes(r.IntN(600)), nil, nil)
@@ -296,6 +311,74 @@ func craftRequest(e *c07Env, cl *t3Client, innerPlain []byte) []byte {
 	ct := append(append([]byte{}, enc...), ctx.Seal(aad, innerPlain)...)
 	m := signedRequest(cl.sk, cl.blindKey, rk, e.configID, ct)
 	return m.Marshal()
+}
+
+// craftRaw: a type-3 request with arbitrary request-key bytes and signature around a correctly sealed inner request
+// (the associated data carries the same request-key bytes, so the issuer's decryption succeeds).
+func craftRaw(e *c07Env, rk, innerPlain, sig []byte) []byte {
+	nk := e.issuer.NameKey().Marshal()
+	suite, err := hpke.AssembleCipherSuite(hpke.DHKEM_X25519, hpke.KDF_HKDF_SHA256, hpke.AEAD_AESGCM128)
+	must(err)
+	pk, err := suite.KEM.DeserializePublicKey(nk[3:35])
+	must(err)
+	enc, ctx, err := hpke.SetupBaseS(suite, theRand, pk, []byte("TokenRequest"))
+	must(err)
+	aad := append(append(append(append([]byte{}, e.aadPrefix...), 0, 3), rk...), e.configID...)
+	ct := append(append([]byte{}, enc...), ctx.Seal(aad, innerPlain)...)
+	m := type3.RateLimitedTokenRequest{RequestKey: rk, NameKeyID: e.configID, EncryptedTokenRequest: ct, Signature: sig}
+	return m.Marshal()
+}
+
+// c07Crafted: requests every one of which must be refused (named by what is wrong with them)
+func c07Crafted(e *c07Env, cl *t3Client, r *Rng, origin string) map[string][]byte {
+	out := map[string][]byte{}
+	bm := r.Bytes(256)
+	bm[0] = 0
+	padded := append([]byte(origin), make([]byte, 32-len(origin)%32)...)
+	inner := append(append(append([]byte{1}, bm...), byte(len(padded)>>8), byte(len(padded))), padded...)
+	P := elliptic.P384().Params().P
+	notOnCurve := func() []byte {
+		for {
+			x := r.Bytes(48)
+			x[0] &= 0x7f
+			rk := append([]byte{2}, x...)
+			if px, _ := elliptic.UnmarshalCompressed(elliptic.P384(), rk); px == nil {
+				return rk
+			}
+		}
+	}
+	good := elliptic.MarshalCompressed(elliptic.P384(), cl.reqKey.X, cl.reqKey.Y)
+	rks := map[string][]byte{
+		"x-not-on-curve":  notOnCurve(),
+		"tag-05":          append([]byte{5}, good[1:]...),
+		"tag-04":          append([]byte{4}, good[1:]...),
+		"tag-00":          append([]byte{0}, good[1:]...),
+		"all-zero":        make([]byte, 49),
+		"x-is-p":          append([]byte{2}, P.FillBytes(make([]byte, 48))...),
+		"x-all-ones":      append([]byte{3}, bytes.Repeat([]byte{0xff}, 48)...),
+		"48-bytes":        good[:48],
+		"uncompressed-97": elliptic.Marshal(elliptic.P384(), cl.reqKey.X, cl.reqKey.Y),
+	}
+	for k, rk := range rks {
+		if len(rk) != 49 {
+			continue // the outer layout fixes 49 bytes; other lengths are covered by the truncation and insertion cases
+		}
+		out["requestKey:"+k+"+sealed+random-sig"] = craftRaw(e, rk, inner, r.Bytes(96))
+		out["requestKey:"+k+"+sealed+zero-sig"] = craftRaw(e, rk, inner, make([]byte, 96))
+	}
+	// a correctly sealed and signed request, then the signature halves replaced by boundary values
+	base := craftRequest(e, cl, inner)
+	N := elliptic.P384().Params().N
+	one := big.NewInt(1)
+	vals := map[string]*big.Int{"0": big.NewInt(0), "N": N, "N+1": new(big.Int).Add(N, one), "P": P, "2^384-1": new(big.Int).Sub(new(big.Int).Lsh(one, 384), one)}
+	rHalf, sHalf := base[len(base)-96:len(base)-48], base[len(base)-48:]
+	for k, v := range vals {
+		b := v.FillBytes(make([]byte, 48))
+		out["sig:s="+k] = append(append(append([]byte{}, base[:len(base)-96]...), rHalf...), b...)
+		out["sig:r="+k] = append(append(append([]byte{}, base[:len(base)-96]...), b...), sHalf...)
+		out["sig:r=s="+k] = append(append(append([]byte{}, base[:len(base)-96]...), b...), b...)
+	}
+	return out
 }
 
 // sigTwin replaces the trailing r‖s by r‖(N-s).
